@@ -373,6 +373,88 @@ package z80
 //@   props C03
 //@   ensures r == a-1
 
+
+// ---------------------------------------------------------------- stack helpers (op_load16.go, op_callret.go)
+
+//@ func copPUSHreg(cpu *CPU, reg Register)
+//@   props C04
+//@   requires vsGhostMem(cpu.Memory)
+//@   ensures cpu.SP == old(cpu.SP)-2
+//@   ensures g.Mem == vsStore(vsStore(old(g.Mem), old(cpu.SP)-1, reg.Hi), old(cpu.SP)-2, reg.Lo)
+//@   ensures g.Wr == vsBumpWr(vsBumpWr(old(g.Wr), old(cpu.SP)-1, reg.Hi), old(cpu.SP)-2, reg.Lo)
+//@   ensures g.Log == vsLogged(vsLogged(old(g.Log), old(g.LogN), vsWrCode(old(cpu.SP)-1, reg.Hi)), old(g.LogN)+1, vsWrCode(old(cpu.SP)-2, reg.Lo))
+//@   ensures g.LogN == old(g.LogN)+2
+//@   modifies cpu.SP, g.Mem, g.Wr, g.Log, g.LogN
+
+//@ func copPOPreg(cpu *CPU, reg *Register)
+//@   props C04
+//@   requires vsGhostMem(cpu.Memory)
+//@   ensures reg.Lo == old(g.Mem)[old(cpu.SP)]
+//@   ensures reg.Hi == old(g.Mem)[old(cpu.SP)+1]
+//@   ensures cpu.SP == old(cpu.SP)+2
+//@   ensures g.Rd == vsBump64k(vsBump64k(old(g.Rd), old(cpu.SP)), old(cpu.SP)+1)
+//@   ensures g.Log == vsLogged(vsLogged(old(g.Log), old(g.LogN), vsRdCode(old(cpu.SP))), old(g.LogN)+1, vsRdCode(old(cpu.SP)+1))
+//@   ensures g.LogN == old(g.LogN)+2
+//@   modifies *reg, cpu.SP, g.Rd, g.Log, g.LogN
+
+//@ func copCALLnn(cpu *CPU, nn uint16)
+//@   props C04
+//@   requires vsGhostMem(cpu.Memory)
+//@   ensures cpu.SP == old(cpu.SP)-2
+//@   ensures cpu.PC == nn
+//@   ensures g.Mem == vsStore(vsStore(old(g.Mem), old(cpu.SP)-1, uint8(old(cpu.PC)>>8)), old(cpu.SP)-2, uint8(old(cpu.PC)))
+//@   ensures g.Wr == vsBumpWr(vsBumpWr(old(g.Wr), old(cpu.SP)-1, uint8(old(cpu.PC)>>8)), old(cpu.SP)-2, uint8(old(cpu.PC)))
+//@   ensures g.Log == vsLogged(vsLogged(old(g.Log), old(g.LogN), vsWrCode(old(cpu.SP)-1, uint8(old(cpu.PC)>>8))), old(g.LogN)+1, vsWrCode(old(cpu.SP)-2, uint8(old(cpu.PC))))
+//@   ensures g.LogN == old(g.LogN)+2
+//@   modifies cpu.SP, cpu.PC, g.Mem, g.Wr, g.Log, g.LogN
+
+//@ func oopRET(cpu *CPU)
+//@   props C04
+//@   requires vsGhostMem(cpu.Memory)
+//@   ensures cpu.PC == uint16(old(g.Mem)[old(cpu.SP)+1])<<8|uint16(old(g.Mem)[old(cpu.SP)])
+//@   ensures cpu.SP == old(cpu.SP)+2
+//@   ensures g.Rd == vsBump64k(vsBump64k(old(g.Rd), old(cpu.SP)), old(cpu.SP)+1)
+//@   ensures g.Log == vsLogged(vsLogged(old(g.Log), old(g.LogN), vsRdCode(old(cpu.SP))), old(g.LogN)+1, vsRdCode(old(cpu.SP)+1))
+//@   ensures g.LogN == old(g.LogN)+2
+//@   modifies cpu.SP, cpu.PC, g.Rd, g.Log, g.LogN
+
+// ---------------------------------------------------------------- remaining flag helpers
+
+//@ func (cpu *CPU) bitchk8b(b, v uint8)
+//@   props C02
+//@   ensures cpu.AF.Lo == vsBitF(b, v, old(cpu.AF.Lo))
+//@   modifies cpu.AF.Lo
+
+//@ func (cpu *CPU) updateFlagIR(d uint8)
+//@   props C14
+//@   ensures cpu.AF.Lo == old(cpu.AF.Lo)&0x01|vsSZ53(d)|vsB2f(cpu.IFF2, 0x04)
+//@   modifies cpu.AF.Lo
+
+//@ func (cpu *CPU) updateFlagLogic8(r uint8, and bool)
+//@   props C02
+//@   ensures cpu.AF.Lo == vsSZ53(r)|vsB2f(and, 0x10)|vsB2f(vsParity(r), 0x04)
+//@   modifies cpu.AF.Lo
+
+//@ func (cpu *CPU) updateFlagBitop(r uint8, carry uint8)
+//@   props C02
+//@   ensures cpu.AF.Lo == vsSZ53(r)|vsB2f(vsParity(r), 0x04)|carry&0x01
+//@   modifies cpu.AF.Lo
+
+//@ func (cpu *CPU) updateIOIn(r uint8)
+//@   props C05
+//@   ensures cpu.AF.Lo == old(cpu.AF.Lo)&0x01|vsSZ53(r)|vsB2f(vsParity(r), 0x04)
+//@   modifies cpu.AF.Lo
+
+//@ func (cpu *CPU) updateFlagIObZ()
+//@   props C09
+//@   ensures cpu.AF.Lo == old(cpu.AF.Lo)&^0x40|0x02|vsB2f(cpu.BC.Hi == 0, 0x40)
+//@   modifies cpu.AF.Lo
+
+//@ func (cpu *CPU) updateFlagLDID(a uint8)
+//@   props C09
+//@   ensures cpu.AF.Lo == old(cpu.AF.Lo)&0xc1|vsB2f(cpu.BC.Lo != 0 || cpu.BC.Hi != 0, 0x04)|(a+cpu.AF.Hi)&0x08|((a+cpu.AF.Hi)&0x02)<<4
+//@   modifies cpu.AF.Lo
+
 // ---------------------------------------------------------------- bundled memory and port types (memio.go)
 //
 // Each method is specified over the whole abstract view of the store (every
